@@ -630,6 +630,47 @@ def render_num_arms(tables):
         tab("scalar_num_arms", tables[0]), "", tab("list_num_arms", tables[1]), ""])
 
 
+# ---- value-kind dispatch of the string searches ------------------------------------------------
+SK = {"String": "SKString", "Array": "SKArray", "Bool": "SKBool", "Float": "SKFloat", "Int": "SKInt", "UInt": "SKUInt"}
+
+
+def extract_cast_dispatch(src):
+    src = strip_comments(src)
+    heads = list(re.finditer(r"match\s*\(\s*value\s*,\s*(c|cast)\s*\)\s*\{", src))
+    if len(heads) != 5:
+        fail("expected five `match (value, c|cast)` dispatches of the string searches, found %d" % len(heads))
+    out = []
+    for h in heads:
+        body, _ = brace_block(src, h.end() - 1)
+        arms = re.findall(r"\(\s*Value::(\w+)\(\s*(?:ref\s+)?\w+\s*\)\s*,\s*(_|true)\s*\)\s*=>", body)
+        if any(k not in SK for k, _ in arms):
+            fail("string search dispatch over Value::" + ",".join(k for k, _ in arms if k not in SK))
+        others = [o for o in re.findall(r"\(\s*(?:Value::\w+\([^)]*\)|_)\s*,\s*[^)]*\)\s*=>", body) if not re.match(r"\(\s*_\s*,\s*_\s*\)\s*=>", o)]
+        if len(others) != len(arms):
+            fail("an arm of a string search dispatch is not of the (Value::K(x), _ | true) shape")
+        last = max(body.rfind("_ => {"), body.rfind("(_, _) => {"))
+        tail = body[last:] if last >= 0 else ""
+        if last < 0 or "=>" in tail[11:] or not re.search(r"return\s+SolverResult::Missing\s*;", tail):
+            fail("a string search dispatch does not end in `_ => missing`")
+        elems = re.findall(r"Value::(\w+)\(x\)\s*=>\s*x\.to_string\(\)", body)
+        if any(k not in SK for k in elems):
+            fail("array elements stringified: " + ",".join(elems))
+        out.append(([(SK[k], "true" if f == "true" else "false") for k, f in arms], [SK[k] for k in elems]))
+    return out
+
+
+def render_cast_dispatch(ds):
+    rows = []
+    for arms, elems in ds:
+        rows.append("([%s], [%s])" % ("; ".join("(%s, %s)" % a for a in arms), "; ".join(elems)))
+    return "\n".join([
+        "(* AUTO-GENERATED by tools/gen_tables.py from src/solver.rs (the five `match (value, cast)` dispatches of the"
+        "\n   string searches, in source order) -- do not edit. *)",
+        "From TauModel Require Import Base Syntax CastTable.", "",
+        "Definition str_dispatches : list str_dispatch :=",
+        "  [" + ";\n   ".join(rows) + "].", ""])
+
+
 def coq_str(s):
     return "[" + "; ".join(str(ord(ch)) for ch in s) + "]%N"
 
@@ -743,6 +784,18 @@ def main():
         status["parser_num_arms"] = "ok"
     except Unrecognised as e:
         status["parser_num_arms"] = "shape not recognised: %s" % e
+    # table 7: value-kind dispatch of the string searches
+    try:
+        try:
+            ssrc4 = open(os.path.join(REPO, "src", "solver.rs"), encoding="utf-8").read()
+        except OSError as e:
+            fail("cannot read solver.rs: %s" % e)
+        cd = extract_cast_dispatch(ssrc4)
+        info["cast_changed"] = write_if_changed(os.path.join(os.path.dirname(out), "GeneratedCast.v"), render_cast_dispatch(cd))
+        info["cast_dispatches"] = len(cd)
+        status["solver_cast"] = "ok"
+    except Unrecognised as e:
+        status["solver_cast"] = "shape not recognised: %s" % e
     info["status"] = status
     if "--json" in sys.argv:
         print(json.dumps(info))
